@@ -21,6 +21,11 @@ echo "== demo with the change (expect exit 1)"
 ( cd "$SCR" && /tmp/mutkit/py "$SCR" "$SCR/MUTANT/demo.py" ) > "$DEST/demo_mutant.log" 2>&1; D1=$?
 echo "   exit=$D1"; tail -2 "$DEST/demo_mutant.log"
 git -C /repo worktree remove --force "$SCR"
+if [ -n "${SCRATCH:-}" ]; then
+  # while a sweep runs in /verif against /repo: use a scratch worktree instead of /repo itself
+  /verif/tools/scratchcheck.sh "$NAME" $ID "$@" | sed 's/^RESULT [^ ]* checks=/RESULT demo_clean='$D0' demo_mutant='$D1' checks=/'
+  exit 0
+fi
 echo "== /verif checks against /repo with the change applied"
 git -C /repo apply "$DEST/patch.diff" || exit 2
 RES=""
